@@ -21,7 +21,8 @@ def fkey(x):
 class Recorder:
     """Wraps module attributes of the working tree's synrbl; all recorded values are deep copies."""
 
-    def __init__(self):
+    def __init__(self, force_conf=None):
+        self.force_conf = force_conf      # explore the scoring oracle's answer space: every score is this value
         self.t = {k: {} for k in ("strip", "parse", "decomp", "ccount", "mcs_state", "impute", "pp", "conf")}
         self.trace = []
         self.conflicts = []
@@ -121,7 +122,20 @@ class Recorder:
         def pred(self_, reactions, stats=None, threshold=0):
             R.trace.append(("conf", stats is not None))
             before = {id(x): (x["input_reaction"], x["reaction"]) for x in reactions}
-            r = o_pred(self_, reactions, stats=stats, threshold=threshold)
+            if R.force_conf is not None:
+                import numpy as np
+                real, fc = self_.model, float(R.force_conf)
+
+                class _Stub:
+                    def predict_proba(self, X):
+                        return np.array([[1.0 - fc, fc]] * len(X))
+                self_.model = _Stub()
+                try:
+                    r = o_pred(self_, reactions, stats=stats, threshold=threshold)
+                finally:
+                    self_.model = real
+            else:
+                r = o_pred(self_, reactions, stats=stats, threshold=threshold)
             for x in r:
                 R.put("conf", before[id(x)], x["confidence"])
             return r
@@ -156,9 +170,9 @@ def balancer(t=0):
     return _BAL[t]
 
 
-def run_batch(inputs, t=0):
+def run_batch(inputs, t=0, force_conf=None):
     """One pipeline batch on the real code with recorders.  Returns a JSON-able dict."""
-    rec = Recorder().install()
+    rec = Recorder(force_conf).install()
     st = {}
     try:
         rows = balancer(t).rebalance(list(inputs), output_dict=True, stats=st)
@@ -177,19 +191,19 @@ def run_batch(inputs, t=0):
                     "confidence": None if c is None or (isinstance(c, float) and math.isnan(c)) else float(c)})
     tables = {k: [[kk, vv] for kk, vv in v.items()] for k, v in rec.t.items()}
     return {"inputs": list(inputs), "t": t, "rows": out, "stats": st, "tables": tables, "trace": [list(x) for x in rec.trace],
-            "conflicts": len(rec.conflicts), "error": err}
+            "conflicts": len(rec.conflicts), "error": err, "force_conf": force_conf}
 
 
-def run_batches(batches, t=0, procs=None):
+def run_batches(batches, t=0, procs=None, force_conf=None):
     """Many batches, in parallel worker processes (each in-process joblib, n_jobs=1)."""
     procs = procs or min(NPROC - 2, 14)
     if len(batches) <= 2 or procs <= 1:
-        return [run_batch(b, t) for b in batches]
+        return [run_batch(b, t, force_conf) for b in batches]
     import multiprocessing as mp
     ctx = mp.get_context("spawn")          # fork after xgboost/OpenMP is loaded deadlocks
     procs = min(procs, len(batches))
     with ctx.Pool(procs, initializer=_worker_init) as pool:
-        return pool.starmap(run_batch, [(b, t) for b in batches], chunksize=1)
+        return pool.starmap(run_batch, [(b, t, force_conf) for b in batches], chunksize=1)
 
 
 def _worker_init():
